@@ -268,6 +268,10 @@ fn main() {
     let prop = args.str("property", "C05");
     let mut rep = Report::new("frame_driver", &prop);
     let mode = args.str("mode", "enum");
+    if mode == "fuzz-one" {
+        fuzz_case(&mut rep, &args, &cvh::fuzz::unhex(&args.str("hex", "")));
+        std::process::exit(rep.finish(args.get("out")));
+    }
     {
         let mut j = Judge { rep: &mut rep, prop: prop.clone(), args: &args };
         match mode.as_str() {
@@ -462,50 +466,69 @@ fn mode_random(j: &mut Judge) {
     for i in 0..cases {
         let cs = only.unwrap_or_else(|| mix(&[seed, 0xF4A3, shard, i]));
         let mut r = Rng::new(cs);
-        let cap = match r.below(8) {
-            0 => r.range(0, 8) as usize,
-            1 => *r.pick(&[16usize, 64, 512, 1432, 1500]),
-            _ => r.range(1, 300) as usize,
-        };
-        let term = *r.pick(&TERMS);
-        let nops = match r.below(6) {
-            0 => r.range(200, 2000),
-            _ => r.range(10, 120),
-        } as usize;
-        let mut ops = Vec::with_capacity(nops);
-        let mut fill_hint = 0usize;
-        for k in 0..nops {
-            if r.chance(1, 9) {
-                ops.push(POp::Flush);
-                fill_hint = 0;
-            } else {
-                let mut len = biased_len(&mut r, cap, term.len(), fill_hint);
-                if cap == 0 && term.is_empty() && len == 0 {
-                    len = 1;
-                }
-                let req = len + term.len();
-                if req <= cap {
-                    if req > cap - fill_hint.min(cap) {
-                        fill_hint = 0;
-                    }
-                    fill_hint += req;
-                }
-                ops.push(POp::Emit(unique_metric(k, len)));
-            }
-        }
-        let random = if faults {
-            let pf = *r.pick(&[0u64, 20, 100, 300, 750]);
-            let pi = *r.pick(&[0u64, 0, 30, 150]);
-            Some((r.fork(), pf, pi))
-        } else {
-            None
-        };
-        let rr = run_w1(cap, term, &ops, &[], random, 0);
-        j.judge(cap, term, &rr.steps, vec![("mode", "random".into()), ("case-seed", cs.to_string()), ("cases", "1".into())], "W1");
+        random_case(j, &mut r, faults, vec![("mode", "random".into()), ("case-seed", cs.to_string()), ("cases", "1".into())], 2000);
         if only.is_some() || j.rep.violation_count >= 12 {
             break;
         }
     }
+}
+
+/// One random W1 history drawn from `r` (a seeded PRNG, or a fuzzer's input through Rng::from_bytes).
+fn random_case(j: &mut Judge, r: &mut Rng, faults: bool, replay: Vec<(&str, String)>, max_long: u64) {
+    let cap = match r.below(8) {
+        0 => r.range(0, 8) as usize,
+        1 => *r.pick(&[16usize, 64, 512, 1432, 1500]),
+        _ => r.range(1, 300) as usize,
+    };
+    let term = *r.pick(&TERMS);
+    let nops = match r.below(6) {
+        0 => r.range(200, max_long.max(200)),
+        _ => r.range(10, 120),
+    } as usize;
+    let mut ops = Vec::with_capacity(nops);
+    let mut fill_hint = 0usize;
+    for k in 0..nops {
+        if r.chance(1, 9) {
+            ops.push(POp::Flush);
+            fill_hint = 0;
+        } else {
+            let mut len = biased_len(r, cap, term.len(), fill_hint);
+            if cap == 0 && term.is_empty() && len == 0 {
+                len = 1;
+            }
+            let req = len + term.len();
+            if req <= cap {
+                if req > cap - fill_hint.min(cap) {
+                    fill_hint = 0;
+                }
+                fill_hint += req;
+            }
+            ops.push(POp::Emit(unique_metric(k, len)));
+        }
+    }
+    let random = if faults {
+        let pf = *r.pick(&[0u64, 20, 100, 300, 750]);
+        let pi = *r.pick(&[0u64, 0, 30, 150]);
+        Some((r.fork(), pf, pi))
+    } else {
+        None
+    };
+    let rr = run_w1(cap, term, &ops, &[], random, 0);
+    j.judge(cap, term, &rr.steps, replay, "W1");
+}
+
+#[allow(dead_code)]
+pub fn fuzz_one(data: &[u8]) {
+    cvh::fuzz::step("frame_driver(fuzz)", |rep, args| fuzz_case(rep, args, data));
+}
+
+fn fuzz_case(rep: &mut Report, args: &Args, data: &[u8]) {
+    let prop = args.str("property", "C05");
+    let mut j = Judge { rep, prop: prop.clone(), args };
+    let mut r = Rng::from_bytes(data);
+    let faults = prop == "C07" || (prop == "C06" && r.chance(1, 2));
+    let hexs = cvh::fuzz::hex(data);
+    random_case(&mut j, &mut r, faults, vec![("mode", "fuzz-one".into()), ("hex", hexs)], 400);
 }
 
 /// Large capacities (around and above std's default BufWriter size 8192 and above 64 KiB): many short metrics until
